@@ -372,6 +372,84 @@ def value_attr() -> Optional[str]:
     return None
 
 
+_SPY_MUTE = False
+
+
+class _SlotSpy:
+    """Completeness audit of the access log.  The log is built from bytecode (`self.<slot>` loads / stores in
+    methods whose `self` is the characteristic under test); an access written any other way — another
+    receiver expression, getattr / setattr, a helper outside the class — would be invisible to it and hence
+    missing from the model's alphabet without anybody noticing.  During the audit the three slots of the
+    class are wrapped in this data descriptor, which sees EVERY get / set of them on the object under test,
+    however it is spelled; the two views must coincide (see completeness_audit)."""
+
+    def __init__(self, orig, var: str):
+        self.orig = orig
+        self.var = var
+
+    def _note(self, obj, kind: str):
+        ex = _CUR
+        if ex is not None and not _SPY_MUTE and obj is ex.env.char:
+            tid = "L" if threading.current_thread() is ex.env.loop_thread else "W"
+            # the same two exemptions as Exec.access: the worker reading what only it writes; the inside of a
+            # controller write (one atomic model step, labelled by its assignment)
+            if tid == "W" and kind == "R":
+                return
+            if tid == "L" and ex.in_write and not (kind == "W" and self.var == "value"):
+                return
+            ex.spy.append(f"{tid}:{kind}:{self.var}")
+
+    def __get__(self, obj, typ=None):
+        if obj is None:
+            return self
+        self._note(obj, "R")
+        return self.orig.__get__(obj, typ)
+
+    def __set__(self, obj, value):
+        self._note(obj, "W")
+        self.orig.__set__(obj, value)
+
+    def __delete__(self, obj):
+        self._note(obj, "W")
+        self.orig.__delete__(obj)
+
+
+def completeness_audit() -> Optional[str]:
+    """Run the warm-up programs (every operation of the alphabet, both granularities, both worker kinds)
+    with the slots spied upon; None if the logged accesses (bytecode view) are exactly the accesses that
+    happened (worker-side reads and the inside of a controller write are exempt in both views)."""
+    from pyhap.characteristic import Characteristic
+
+    if len(SHARED_ATTRS) != 3:
+        return None
+    saved = {}
+    try:
+        for name, var in SHARED_ATTRS.items():
+            for k in Characteristic.__mro__:
+                if name in k.__dict__:
+                    saved[name] = (k, k.__dict__[name])
+                    setattr(k, name, _SlotSpy(k.__dict__[name], var))
+                    break
+        if len(saved) != 3:
+            return None  # not class-level slots / attributes: nothing to wrap (instrumentation unchanged)
+        for c in _WARM_CASES:
+            r = _run_case_once(c)
+            spy = r["spy"]
+            raw = [a for a in r["impl"]["trace"] if a.split(":")[2] in ("value", "cacheV", "cache")]
+            if raw != spy:
+                k = next((i for i, (a, b) in enumerate(zip(raw, spy)) if a != b), min(len(raw), len(spy)))
+                return (
+                    "the access log is incomplete: accesses to the value / cache slots of the characteristic that "
+                    "really happen differ from those the bytecode instrumentation recognises (first difference at "
+                    f"position {k}: happened {spy[k:k + 3]}, recognised {raw[k:k + 3]}; {len(spy)} vs {len(raw)} accesses "
+                    f"in program {c['loop']})"
+                )
+    finally:
+        for name, (k, orig) in saved.items():
+            setattr(k, name, orig)
+    return None
+
+
 class SchedulerStuck(Exception):
     pass
 
@@ -474,6 +552,8 @@ class Exec:
         self.deferred_switch = False
         self.w_in_update = False
         self.overlap = False           # a controller write overlapped a worker update / undrained hand-off
+        self.update_preempted = False  # the worker handed the token over in the middle of an update
+        self.spy: List[str] = []       # every value / cache access that really happened (completeness audit)
         self.anomalies: List[str] = []
         self.timer_problem: Optional[str] = None
         self.op_errors: List[str] = []
@@ -548,7 +628,12 @@ class Exec:
         if self.capture:
             self.capture = False
             # diagnostic read of the object just stored (identity class)
-            v = getattr(self.env.char, value_attr() or "_value", None)
+            global _SPY_MUTE
+            _SPY_MUTE = True
+            try:
+                v = getattr(self.env.char, value_attr() or "_value", None)
+            finally:
+                _SPY_MUTE = False
             ids = self.write_ids if self.capture_tid == "W" else self.l_write_ids
             for i, o in enumerate(self.objects):
                 if o is v:
@@ -602,6 +687,8 @@ class Exec:
         other = "W" if tid == "L" else "L"
         with self.cv:
             if self.runnable[other]:
+                if tid == "W" and self.w_in_update:
+                    self.update_preempted = True
                 self.turn = other
                 self.cv.notify_all()
                 self.wait_turn_locked(tid)
@@ -755,6 +842,7 @@ class Exec:
         if op[0] == "write":
             ev["value"] = op[2]
         self.timeline.append(dict(ev, phase="start"))
+        n_res = len(self.results)
         try:
             self.do_op(op)
         except (SchedulerStuck, TracingIncomplete):
@@ -762,6 +850,9 @@ class Exec:
         except Exception as ex:  # noqa: BLE001  (the loop would log it and go on)
             self.in_write = False
             self.op_errors.append(f"{op}: {type(ex).__name__}: {ex}")
+        if len(self.results) == n_res + 1 and isinstance(self.results[-1], dict):
+            # what this read showed for the characteristic (payload); value-free / empty answers show nothing
+            ev = dict(ev, shown=next(iter(self.results[-1].values())))
         self.timeline.append(dict(ev, phase="end"))
         if self.deferred_switch and not self.in_write:
             self.deferred_switch = False
@@ -881,6 +972,8 @@ def warm_up():
     probes = [_run_case_once(c) for c in (_WARM_CASES[0], _WARM_CASES[0], _WARM_CASES[1])]
     if probes[0]["missing"] and probes[0]["impl"]["trace"] == probes[1]["impl"]["trace"] and probes[2]["missing"]:
         _TIE_PROBLEM = "; ".join(probes[0]["missing"])
+    if _TIE_PROBLEM is None:
+        _TIE_PROBLEM = completeness_audit()
 
 
 def run_case(case: Dict[str, Any]) -> Dict[str, Any]:
@@ -936,6 +1029,7 @@ def _run_case_once(case: Dict[str, Any]) -> Dict[str, Any]:
             "line": None, "impl": {"trace": ex.log, "results": ex.results, "delivered": []}, "verdicts": verdicts,
             "interleaved": True, "yields": dict(ex.yields), "yield_info": ex.yield_info, "sched_part": ex.log,
             "scale": KINDS[kind]["scale"], "n_ep": len(epi), "overlap": True, "missing": [], "timer_problem": None,
+            "spy": ex.spy,
         }
 
     # ---- oracle (property on the real behaviour) -------------------------------------------------
@@ -968,6 +1062,9 @@ def _run_case_once(case: Dict[str, Any]) -> Dict[str, Any]:
         verdicts = ref.judge_timeline(
             payload(kind, case["init"]), timeline, database_reads, direct_reads, ev_payload, inflight
         )
+        if not ex.update_preempted and not verdicts and ex.worker_outcomes == outcome_ok:
+            # the property's quantifier: every update ran as a whole at one point of the loop's program
+            verdicts = list(verdicts) + ref.judge_serial_order(payload(kind, case["init"]), timeline)
         if ex.worker_outcomes != outcome_ok:
             verdicts.append(
                 (
@@ -1028,6 +1125,7 @@ def _run_case_once(case: Dict[str, Any]) -> Dict[str, Any]:
         "line": line, "impl": impl_obs, "verdicts": verdicts, "interleaved": interleaved,
         "yields": dict(ex.yields), "yield_info": ex.yield_info, "sched_part": sched_part, "scale": scale,
         "n_ep": n_ep, "overlap": ex.overlap, "missing": missing, "timer_problem": timer_problem,
+        "atomic": not ex.update_preempted, "spy": ex.spy,
     }
 
 
@@ -1307,7 +1405,8 @@ def _minimise(case: Dict[str, Any], sig: str) -> Dict[str, Any]:
 def _run_slim(case: Dict[str, Any]) -> Dict[str, Any]:
     tracing_on()  # stays on for the whole batch in this process
     r = run_case(case)
-    r.pop("yield_info", None)
+    for k in ("yield_info", "spy"):
+        r.pop(k, None)
     return r
 
 
@@ -1356,6 +1455,8 @@ def _evaluate(ctx: Ctx, cases: List[Tuple[str, Dict[str, Any]]], correspond: boo
         for op in case["loop"]:
             st.hit("op", "loop:" + op[0])
         st.hit("outcome", "interleaved" if r["interleaved"] else "serial")
+        if r.get("atomic") and not r.get("overlap"):
+            st.hit("outcome", "updates-landed-whole: reads in progress judged against all serial orders")
         if "none" in r["impl"]["results"][: len(r["impl"]["results"]) - 3]:
             st.hit("outcome", "read-in-progress-returned-None")
         if "L:W:cacheV" in sp and sp.count("L:R:value") >= 2 and sp[-1:] != ["L:R:value"]:
